@@ -20,7 +20,7 @@ vars == << pk, buf, prov, memo, fromdec, provdec >>
 
 None   == [k |-> "NONE"]
 NoRes  == [ok |-> FALSE, out |-> << >>, panic |-> FALSE, none |-> TRUE]
-NoMemo == [marshal |-> NoRes, size |-> -1, dest |-> << -1 >>, header |-> None, str |-> << -1 >>]
+NoMemo == [marshal |-> NoRes, size |-> -1, dest |-> << >>, hasdest |-> FALSE, str |-> << >>, hasstr |-> FALSE]
 
 Init == /\ pk = [h \in H |-> None] /\ buf = [h \in H |-> << >>]
         /\ prov = [h \in H |-> None] /\ memo = [h \in H |-> NoMemo]
@@ -36,6 +36,9 @@ RefDatagram(b)   == LET r == DecDatagram(D0, b) IN
                     IF r.st = "ok" THEN [ok |-> TRUE, out |-> r.v, panic |-> FALSE, slow |-> FALSE, alloc |-> 0]
                     ELSE [ok |-> FALSE, out |-> << >>, panic |-> FALSE, slow |-> FALSE, alloc |-> 0]
 
+\* ExtendedReport.Marshal fills in its blocks' header fields (documented), which String prints
+ContainsXR(v) == IF IsList(v) THEN \E i \in 1..Len(v.pkts) : v.pkts[i].k = "XR" ELSE v.k = "XR"
+
 \* ---- guards -------------------------------------------------------------
 SameMarshal(a, b) == a.ok = b.ok /\ (a.ok => a.out = b.out)
 MarshalGuard(D, h, res) ==
@@ -47,11 +50,11 @@ SizeGuard(D, h, out) ==
   \cup (IF memo[h].size # -1 /\ memo[h].size # out THEN {"C18:size_not_repeatable"} ELSE {})
 DestGuard(D, h, out) ==
   DestTags(pk[h], out)
-  \cup (IF memo[h].dest # << -1 >> /\ memo[h].dest # out THEN {"C18:dest_not_repeatable"} ELSE {})
+  \cup (IF memo[h].hasdest /\ memo[h].dest # out THEN {"C18:dest_not_repeatable"} ELSE {})
 HeaderGuard(D, h, out) == HeaderTags(D, pk[h], out)
 StringGuard(h, res) ==
   (IF res.panic THEN {"C17:string_panic"} ELSE {})
-  \cup (IF ~res.panic /\ memo[h].str # << -1 >> /\ memo[h].str # res.out THEN {"C18:string_not_repeatable"} ELSE {})
+  \cup (IF ~res.panic /\ memo[h].hasstr /\ memo[h].str # res.out THEN {"C18:string_not_repeatable"} ELSE {})
 UnmarshalGuard(D, k, b, res) ==
   DecodeTags(D, k, buf[b], res)
   \cup (IF prov[b].k = k /\ k # "CP" /\ WFAny(D, prov[b]) THEN RtOwnTags(D, prov[b], res) ELSE {})
@@ -72,7 +75,7 @@ Marshal(h, res) ==
   /\ MarshalGuard(D0, h, res) = {}
   /\ buf'  = [buf EXCEPT ![h] = IF res.ok THEN res.out ELSE << >>]
   /\ prov' = [prov EXCEPT ![h] = IF res.ok THEN pk[h] ELSE None]
-  /\ memo' = [memo EXCEPT ![h].marshal = res]
+  /\ memo' = [memo EXCEPT ![h].marshal = res, ![h].hasstr = IF ContainsXR(pk[h]) THEN FALSE ELSE @]
   /\ provdec' = IF res.ok /\ h \in fromdec THEN provdec \cup {h} ELSE provdec \ {h}
   /\ UNCHANGED << pk, fromdec >>
 SizeOf(h, out) ==
@@ -80,12 +83,12 @@ SizeOf(h, out) ==
   /\ memo' = [memo EXCEPT ![h].size = out] /\ UNCHANGED << pk, buf, prov, fromdec, provdec >>
 DestOf(h, out) ==
   /\ pk[h].k # "NONE" /\ DestGuard(D0, h, out) = {}
-  /\ memo' = [memo EXCEPT ![h].dest = out] /\ UNCHANGED << pk, buf, prov, fromdec, provdec >>
+  /\ memo' = [memo EXCEPT ![h].dest = out, ![h].hasdest = TRUE] /\ UNCHANGED << pk, buf, prov, fromdec, provdec >>
 HeaderOf(h, out) ==
   /\ pk[h].k # "NONE" /\ HeaderGuard(D0, h, out) = {} /\ UNCHANGED vars
 StringOf(h, res) ==
   /\ pk[h].k # "NONE" /\ StringGuard(h, res) = {}
-  /\ memo' = [memo EXCEPT ![h].str = res.out] /\ UNCHANGED << pk, buf, prov, fromdec, provdec >>
+  /\ memo' = [memo EXCEPT ![h].str = res.out, ![h].hasstr = TRUE] /\ UNCHANGED << pk, buf, prov, fromdec, provdec >>
 Unmarshal(k, b, h, res) ==
   /\ UnmarshalGuard(D0, k, b, res) = {}
   /\ pk' = [pk EXCEPT ![h] = IF res.ok THEN res.out ELSE None]
